@@ -89,13 +89,15 @@ def _to_triplets(
 
 
 def _to_len_bucket(seqs):
-    ans = {}
-    for seq in seqs:
+    ans, positions = {}, {}
+    for index, seq in enumerate(seqs):
         _len = len(seq)
         if _len not in ans:
             ans[_len] = []
+            positions[_len] = []
         ans[_len].append(seq)
-    return ans
+        positions[_len].append(index)
+    return ans, positions
 
 
 def kdtree(
@@ -151,9 +153,9 @@ def kdtree(
     )
 
     if custom_distance == "hamming":
-        buckets, ans = _to_len_bucket(seqs), []
-        for bucket in buckets.values():
-            ans += _kdtree_leven(
+        (buckets, positions), ans = _to_len_bucket(seqs), []
+        for _len, bucket in buckets.items():
+            triplets = _kdtree_leven(
                 bucket,
                 max_edits,
                 max_returns,
@@ -163,6 +165,9 @@ def kdtree(
                 "triplets",
                 compression,
             )
+            # map bucket-local positions back to positions in the input
+            index = positions[_len]
+            ans += [(index[i], index[j], dist) for i, j, dist in triplets]
         return _make_output(ans, output_type, seqs)
     return _kdtree_leven(
         seqs,
